@@ -73,8 +73,12 @@ def preExit (m n : Nat) (h : Holder) (i : Nat) : Holder :=
 
 /-- register `i` was written: the invalidation reaches every waiter that tracks it (tracking
 started with the GET of its refused attempt) and leaves a gate token (`select { case g.ch <- …:
-default: }` on a channel of capacity 1). A waiter on the writer's own NOLOOP connection gets its
-token from the explicit gate send of the last monitor instead (not distinguished here). -/
+default: }` on a channel of capacity 1). SCOPE: every waiter of `ws` has its own gate and its
+connection is told about every write of the key it tracks — i.e. waiters of different Lockers,
+none of which is the writer. Waiters that share one Locker (one gate channel, one connection) and
+a writer on that same NOLOOP connection are NOT covered: the explicit gate send of monitoring()
+happens only after a successful lock (`failures < majority`), so a failed attempt's own deletions
+wake nobody — see `Sib` below and `Rv.C34.noloop_sibling_lost_wakeup_witness`. -/
 def notify (ws : Nat → Waiter) (i : Nat) : Nat → Waiter :=
   fun w => if (ws w).parked = true ∧ (ws w).blocked = i then { ws w with token := true } else ws w
 
@@ -178,5 +182,86 @@ def live (s : Sys) (v : Nat) : Bool := (s.hs v).returned && !(s.hs v).cancelled
 
 /-- keys (below n) the holder's value still owns on the server -/
 def owned (s : Sys) (v : Nat) : Nat := cnt s.n (fun i => decide (s.regs i = some v))
+
+/-! ### several WithContext waiters of ONE Locker (one gate channel, one connection)
+
+A small machine for exactly that configuration (KeyMajority 2, three keys): the gate channel
+`token`, the keys the shared connection tracks, the number of parked waiters, and the steps of
+onInvalidations / WithContext / a failing `try` as the connection sees them. `noloop` is the
+Locker's NoLoopTracking option: the connection's own writes are then not notified (Redis drops
+the tracking entry of the written key for everybody and tells everybody but the writer). -/
+namespace Sib
+
+structure St where
+  noloop : Bool
+  regs : List (Option Nat) := [some 1, some 1, some 1]   -- held by a holder of another Locker
+  tracked : List Nat := []
+  token : Bool := false
+  parked : Nat := 0
+  live : Nat := 0            -- lock contexts handed out to waiters
+  deriving Repr, DecidableEq
+
+inductive Ev where
+  | park (i : Nat)           -- a waiter's attempt is refused at key i (GET inside the script: tracked); it parks
+  | otherDel (i : Nat)       -- the other Locker's holder deletes key i
+  | wake                     -- a parked waiter takes the gate token and starts an attempt
+  | ownAcq (v i : Nat)       -- the attempt acquires key i (own SET NX, then GET: tracked)
+  | ownRefused (i : Nat)     -- the attempt is refused at key i (tracked)
+  | ownDel (v i : Nat)       -- the failed attempt's monitor deletes key i again (own write)
+  | repark                   -- the failed attempt is over (failures >= majority: no gate send); the waiter parks
+  | success                  -- the attempt got its majority: the waiter returns with the lock
+  deriving Repr, DecidableEq
+
+/-- a write of key i by `own` connection or by somebody else: the tracking entry is consumed; the
+gate gets a token unless it was the connection's own write under NOLOOP -/
+def written (s : St) (i : Nat) (own : Bool) : St :=
+  if i ∈ s.tracked then
+    { s with tracked := s.tracked.filter (· ≠ i), token := s.token || !(own && s.noloop) }
+  else s
+
+def track (s : St) (i : Nat) : St := if i ∈ s.tracked then s else { s with tracked := i :: s.tracked }
+
+def next (s : St) : Ev → St
+  | .park i => { track s i with parked := s.parked + 1 }
+  | .otherDel i => written { s with regs := s.regs.set i none } i false
+  | .wake => if s.token ∧ 0 < s.parked then { s with token := false, parked := s.parked - 1 } else s
+  | .ownAcq v i => track (written { s with regs := s.regs.set i (some v) } i true) i
+  | .ownRefused i => track s i
+  | .ownDel v i =>
+    if s.regs[i]? = some (some v) then written { s with regs := s.regs.set i none } i true else s
+  | .repark => { s with parked := s.parked + 1 }
+  | .success => { s with live := s.live + 1 }
+
+def run (s : St) : List Ev → St
+  | [] => s
+  | e :: r => run (next s e) r
+
+/-- one whole attempt of a woken waiter with value v on the canonical schedule -/
+def attempt (s : St) (v : Nat) : St :=
+  let rec go (s : St) (i : Nat) (fuel : Nat) (got : List Nat) : St × List Nat × Bool :=
+    match fuel with
+    | 0 => (s, got, true)
+    | f + 1 =>
+      if i ≥ s.regs.length then (s, got, true)
+      else if s.regs[i]? = some none then go (next s (.ownAcq v i)) (i + 1) f (i :: got)
+      else (next s (.ownRefused i), got, false)
+  let (s1, got, ok) := go s 0 s.regs.length []
+  if ok then next s1 .success
+  else next (got.foldl (fun t i => next t (.ownDel v i)) s1) .repark
+
+/-- waiters take tokens and attempt until no token is left or nobody is parked -/
+def settle (s : St) : Nat → Nat → St
+  | 0, _ => s
+  | fuel + 1, v => if s.token ∧ 0 < s.parked then settle (attempt (next s .wake) v) fuel (v + 1) else s
+
+/-- the schedule the harness fixes with gates: both waiters parked on key 0; the holder deletes
+key 0 (waiter A wakes, takes key 0, is refused at key 1, its cleanup is held back); the holder
+deletes key 1 (waiter B wakes, is refused at key 0 by A, parks); the holder deletes key 2; A's
+cleanup deletes key 0 and A parks -/
+def schedule : List Ev :=
+  [.park 0, .park 0, .otherDel 0, .wake, .ownAcq 7 0, .ownRefused 1, .otherDel 1, .wake, .ownRefused 0, .repark,
+   .otherDel 2, .ownDel 7 0, .repark]
+
+end Sib
 
 end Rv.Lock
